@@ -71,7 +71,8 @@ ASSUMPTIONS = [
 REQUIRED = ['indiv', 'hier', 'filter', 'kind:gauss', 'kind:lognorm', 'kind:trunc', 'kind:pooled', 'kind:hetero',
             'noncentered', 'cov', 'cov_pooled', 'red', 'comp', 'bare', 'ids:unsorted', 'ids:default', 'stat',
             'tight', 'wide', 'chains=1', 'draws=1', 'n_ids=1', 'param_map_swap', 'second_individual',
-            'e2e:optimisation:broken_run', 'n_runs>default:two_steps', 'one_parameter', 'ids:numeric_strings']
+            'e2e:optimisation:broken_run', 'n_runs>default:two_steps', 'one_parameter', 'ids:numeric_strings', 'n_runs=default_untouched',
+            'pointwise:sub_selected_dataset']
 
 UNSORTED_IDS = ['id-e', 'id-b', 'id-d', 'id-a', 'id-c']
 NUMERIC_STRING_IDS = ['007', '010', '1.0', '1e2', '+5']
@@ -198,6 +199,9 @@ def _draw_common(draw, spec):
     # (controllers start with 5 runs: numbers below and above that default, also reached in two set_n_runs steps)
     spec['n_runs'] = draw(st.integers(6, 8)) if gen.chance(draw, 0.2) else draw(st.integers(1, 3))
     spec['n_runs_first'] = draw(st.sampled_from([None, None, 2, 6, 7]))
+    if gen.chance(draw, 0.15):
+        # the controller keeps the number of runs it is constructed with (5): set_n_runs is never called
+        spec['n_runs'], spec['n_runs_first'] = 5, None
     spec['n_iter'] = draw(st.integers(3, 5))
     spec['sampler'] = draw(st.sampled_from(['haario', 'haario', 'metropolis']))
     spec['optimiser'] = draw(st.sampled_from(['cmaes', 'cmaes', 'neldermead', 'xnes']))
@@ -307,6 +311,8 @@ def classify(spec):
     if spec['kind'] == 'indiv' and llbuild.ll_n_parameters(spec['ll']) == 1:
         labs.add('one_parameter')
     labs.add('sampler:' + spec['sampler'])
+    if spec.get('n_runs') == 5 and not spec.get('n_runs_first'):
+        labs.add('n_runs=default_untouched')
     if spec.get('n_runs', 1) > 5:
         labs.add('n_runs>default')
         if spec.get('n_runs_first'):
@@ -806,7 +812,8 @@ def _check_inference(case, s, P, L):
         ctrl = chi.SamplingController(P, seed=s['cseed'])
         if s.get('n_runs_first'):
             ctrl.set_n_runs(s['n_runs_first'])
-        ctrl.set_n_runs(s['n_runs'])
+        if s['n_runs'] != 5 or s.get('n_runs_first'):
+            ctrl.set_n_runs(s['n_runs'])
         ctrl.set_parallel_evaluation(False)
         ctrl.set_sampler(getattr(pints, SAMPLERS[s['sampler']]))
     if 'controller' not in case.checked:
@@ -904,7 +911,8 @@ def _run_optimisation(case, s, P, L):
             oc = chi.OptimisationController(P, seed=s['cseed'])
             if s.get('n_runs_first'):
                 oc.set_n_runs(s['n_runs_first'])
-            oc.set_n_runs(s['n_runs'])
+            if s['n_runs'] != 5 or s.get('n_runs_first'):
+                oc.set_n_runs(s['n_runs'])
             oc.set_parallel_evaluation(False)
             opt = s['optimiser']
             if L.n < 2 and opt == 'cmaes':
@@ -1140,6 +1148,29 @@ def _check_downstream(case, s, P, L, ctrl):
                     want = np.asarray(lik.compute_pointwise_ll(rows[c, d].copy()), dtype=float)
                     case.close(vals[c, d], want, rtol=1e-12, what='pointwise log-likelihood of chain %d, draw %d '
                                '(columns %s)' % (c, d, [_what(L, k) for k in cols]))
+
+            # a dataset with warm-up draws discarded and / or a chain removed keeps its chain and draw labels: the
+            # entry labelled (chain c, draw d) is the pointwise log-likelihood of the draw labelled (c, d)
+            d0 = 1 if s['n_draws'] >= 2 else 0
+            keep_c = [c for c in range(s['n_chains']) if c != (s['pick'] % s['n_chains'])] if s['n_chains'] >= 2 \
+                else [0]
+            if (d0 or len(keep_c) < s['n_chains']) and not case.fails:
+                sub = ds.sel(draw=slice(d0, None)).sel(chain=keep_c)
+                pw2 = chi.compute_pointwise_loglikelihood(lik, sub, param_map=dict(plan['pmap']), **kw)
+                case.equal(tuple(pw2.shape), (len(keep_c), s['n_draws'] - d0, n_obs),
+                           'shape of the pointwise log-likelihood of a sub-selected dataset', kind='shape')
+                case.equal([int(v) for v in pw2.coords['chain'].values], keep_c,
+                           'chain labels of the pointwise log-likelihood of a sub-selected dataset')
+                case.equal([int(v) for v in pw2.coords['draw'].values], list(range(d0, s['n_draws'])),
+                           'draw labels of the pointwise log-likelihood of a sub-selected dataset')
+                if not case.fails:
+                    for c in keep_c:
+                        for d in range(d0, s['n_draws']):
+                            want = np.asarray(lik.compute_pointwise_ll(rows[c, d].copy()), dtype=float)
+                            case.close(np.asarray(pw2.sel(chain=c, draw=d).values, dtype=float), want, rtol=1e-12,
+                                       what='entry labelled (chain %d, draw %d) of the pointwise log-likelihood of a '
+                                       'sub-selected dataset' % (c, d))
+                case.labels.append('pointwise:sub_selected_dataset')
 
     # ---- posterior predictive model over the population predictive model
     if s['kind'] in ('hier', 'filter'):
